@@ -89,6 +89,9 @@ func (e *Explorer) runOne(choices []int) (*Trace, string, []Viol) {
 	tr := Run(e.T, Options{Prefix: choices, MaxSteps: e.MaxSteps, Delay: e.Delay, Rotate: e.Rotate, Reverse: e.Reverse, Horizon: e.Horizon},
 		func(s *Sched) { st = e.H.Setup(s) },
 		func(s *Sched, tr *Trace) { outcome, viols = e.H.Check(s, tr, st) })
+	for _, r := range tr.Races {
+		viols = append(viols, Viol{Sig: r.Sig, Msg: r.Msg})
+	}
 	if tr.Aborted && outcome == "" {
 		// the bubble was torn down with natively blocked goroutines: evaluate what Check saw (it ran before teardown)
 	}
